@@ -664,7 +664,7 @@ class _RetryAfter(HTTPException):
     ) -> list[tuple[str, str]]:
         headers = super().get_headers(environ, scope)
 
-        if self.retry_after:
+        if self.retry_after is not None:
             if isinstance(self.retry_after, datetime):
                 from .http import http_date
 
